@@ -592,6 +592,33 @@ def p15_interval_loops(ctx):
                 re_ = ready_edges(b, lambda fo: fo[0] == "call" and fo[3] == (b.path, bb))
                 good = bool(re_)
         r.add(f, "%s runs in spawn_blocking and is awaited" % want.split("::")[-1], good, where(b, sbs[0][1]) if sbs else short_span(b.span))
+        # a failed merge / sync is reported and the task goes on: the error side of the action's own
+        # result (the inner Result, behind the JoinHandle's `?`) never leads to a return
+        blk = lambda e: e.kind in ("unwind", "ydrop")
+        for _, sbb, st_ in sbs:
+            site = (b.path, sbb)
+            inner = []
+            for bb in sorted(b.live_blocks()):
+                inf = b.switch_info(bb)
+                if not inf or inf["kind"] != "variant":
+                    continue
+                on = inf["on"]
+                if not origin_mentions(on, lambda x: x[0] == "call" and x[3] == site):
+                    continue
+                if not origin_mentions(on, lambda x: x[0] == "variant" and x[2] == "Continue"):
+                    continue  # the JoinHandle's own `?`
+                for e in b.succ[bb]:
+                    if set(inf["arms"].get(e.dst, [])) & {"Err", "Break"}:
+                        inner.append((bb, e.dst))
+            for bb, d in inner:
+                heads = {s["tuple_bb"]} | {hb for _, hb, _t in calls_in([b], "shutdown::Shutdown::is_shutdown")}
+                pth = path_to(b, [d], lambda x: b.term(x)["k"] == "return", blocked_edges=blk, blocked_blocks=heads)
+                r.add(f, "a failed %s does not end the periodic task" % want.split("::")[-1], pth is None, where(b, bb), "" if pth is None else "the error leaves the loop: after one failed attempt nothing is merged/synced any more although the policy still asks for it", describe_path(b, pth) if pth else None)
+        # every sleep of the task is raced with the shutdown notification (also a back-off)
+        sel_futs = [x for s2 in sels for x in s2["futs"]]
+        for _, slb, slt in calls_in([b], "tokio::time::sleep"):
+            insel = any(x[0] == "call" and x[3] == (b.path, slb) for x in sel_futs) and any(is_call_origin(x, "Shutdown::recv") for s2 in sels if any(y[0] == "call" and y[3] == (b.path, slb) for y in s2["futs"]) for x in s2["futs"])
+            r.add(f, "sleep is raced with Shutdown::recv", insel, where(b, slb), "" if insel else "a sleep outside the select: closing the store waits for this timer")
         # loop condition also observes shutdown (cheap exit): not required
     # the jitter range may be empty-width (check_jitter = 0.0 is documented): the sampler must accept low == high
     for mb in prog.family("storage::bitcask::merge_on_interval"):
